@@ -120,6 +120,27 @@ theorem doOpen_closed_out (s : St) (h : s.isOpen = false) :
   simp only [doOpen, h, Bool.false_eq_true, if_false]
   cases s.kind <;> cases s.openPlan.headD .ok <;> simp
 
+/-- sockets / ports the transport has created and not closed, read off the device-interaction trace -/
+def unclosed (io : List Io) : Int := (io.count Io.mk : Int) - (io.count Io.cl : Int)
+
+theorem unclosed_append (a b : List Io) : unclosed (a ++ b) = unclosed a + unclosed b := by
+  simp only [unclosed, List.count_append]; omega
+
+/-- what `open` on a closed transport does to the device objects: on success exactly one more socket / port
+is open; on every failure path each socket it created has been closed again -/
+theorem doOpen_unclosed (s : St) (h : s.isOpen = false) :
+    ((doOpen s).2 = .unit → unclosed (doOpen s).1.io = unclosed s.io + 1) ∧
+    ((doOpen s).2 ≠ .unit → unclosed (doOpen s).1.io = unclosed s.io) := by
+  have e1 : unclosed [Io.mk, Io.cn, Io.cl] = 0 := by decide
+  have e2 : unclosed [Io.gh, Io.mk, Io.bd, Io.cl] = 0 := by decide
+  have e3 : unclosed [Io.gh] = 0 := by decide
+  have e4 : unclosed [Io.mk] = 1 := by decide
+  have e5 : unclosed [Io.mk, Io.cn] = 1 := by decide
+  have e6 : unclosed [Io.gh, Io.mk, Io.bd] = 1 := by decide
+  simp only [doOpen, h, Bool.false_eq_true, if_false]
+  cases s.kind <;> cases s.openPlan.headD .ok <;>
+    simp [unclosed_append, e1, e2, e3, e4, e5, e6]
+
 theorem doWrite_spec (s : St) (d : Bytes) :
     tot (doWrite s d).1 = tot s ∧ (doWrite s d).1.kind = s.kind ∧ (doWrite s d).1.minP = s.minP ∧
     (doWrite s d).1.maxP = s.maxP ∧ (doWrite s d).1.isOpen = s.isOpen ∧ (doWrite s d).1.dev = s.dev ∧
